@@ -593,6 +593,10 @@ func c17Gen(r *Run) {
 		}
 		c17RunAndEmit(r, worker, sessions[i:j], fmt.Sprintf("b%d", i/batch))
 	}
+	// the granularity the serialisability theorem rests on: every edit a session issues is ONE
+	// top-level store write (one transaction / one bulk write).  Counted on the real kvgraph through
+	// C04's counting store wrapper, on the states C04 uses, for every edit kind.
+	c17Units(r)
 	// last, so that a racing or crashing session (a concrete failing input) is reported first:
 	// the lockset table by name, for the replay file of a broken obligation
 	r.Emit(map[string]interface{}{"op": "reset"}, map[string]interface{}{"r": "ok"})
@@ -600,6 +604,42 @@ func c17Gen(r *Run) {
 	r.Rule = "distinct (kind, client operation lists) of sessions that ran to completion"
 	r.AddSample(sessions[0])
 	r.AddSample(sessions[1])
+}
+
+// c17UnitsOf runs `hist` on a fresh kvgraph behind the counting wrapper and returns the number of
+// top-level store writes `call` makes.
+func c17UnitsOf(hist []interface{}, call map[string]interface{}) map[string]interface{} {
+	w := NewC04World("level")
+	defer w.Destroy()
+	w.C03World.Exec(map[string]interface{}{"op": "reset"})
+	for _, h := range hist {
+		w.C03World.Exec(h.(map[string]interface{}))
+	}
+	w.f.armed, w.f.k, w.f.count, w.f.tripped, w.f.dead = true, 1<<30, 0, false, false
+	w.C03World.Exec(call)
+	n := w.f.count
+	w.f.armed = false
+	return map[string]interface{}{"units": n}
+}
+
+func c17Units(r *Run) {
+	for si, hist := range c04Directed() {
+		if si == 1 && r.Tier != "thorough" {
+			continue
+		}
+		hs := []interface{}{}
+		for _, h := range hist {
+			hs = append(hs, h)
+		}
+		for _, t := range c04Targets() {
+			switch opKind(t) {
+			case "addV", "addE", "bulk", "delV", "delE":
+				op := map[string]interface{}{"op": "units", "hist": hs, "call": t}
+				r.Emit(op, c17UnitsOf(hs, t))
+				r.Count("units:" + opKind(t))
+			}
+		}
+	}
 }
 
 // c17Replay: worker mode executes sessions; otherwise re-runs the sessions found in an ops file.
@@ -617,6 +657,10 @@ func c17Replay(r *Run, ops []map[string]interface{}) {
 		switch op["op"] {
 		case "lockset":
 			r.Emit(map[string]interface{}{"op": "lockset"}, map[string]interface{}{"unexplained": []interface{}{}, "stale": 0})
+		case "units":
+			hs, _ := op["hist"].([]interface{})
+			call, _ := op["call"].(map[string]interface{})
+			r.Emit(op, c17UnitsOf(hs, call))
 		case "session":
 			b, _ := json.Marshal(op["raw"])
 			var s c17Session
